@@ -140,6 +140,9 @@ func (c20) Gen(r *simrt.Rand, idx int, tier string) *Case {
 				if r.P(0.6) {
 					mp += ":" + fmt.Sprint(r.Range(0, 2))
 				}
+				if r.P(0.15) {
+					mp = "0:" + fmt.Sprint(r.Range(1, 2)) // nothing of the class path, the last one or two segments kept
+				}
 				rx := "."
 				if r.P(0.5) {
 					// a rule that matches only some commodities: a group node can then be
